@@ -23,4 +23,4 @@ Extraction "model.ml"
   pipeline_words line_widths body lastw_pen
   ofit_smawk optimal_fit_smawk smawk_minima
   trim split_terminator_lf
-  optimal_b wf_strip greedy_b take_ws has_nonws is_prefix_char split_terminator_lf trim_end ends_with join spaces.
+  optimal_b chain_b wf_strip greedy_b take_ws has_nonws is_prefix_char split_terminator_lf trim_end ends_with join spaces.
